@@ -688,7 +688,8 @@ theorem Frame.handle {s s' : State} {b : Nat} (fr : Frame s s' b) (h : Nat) : s'
 /-- the traits the caller of `mpt_array_insert` finds in the buffer -/
 theorem managed_eq {s : State} {h nb : Nat} {z : Buf} {t : Traits} (hh : s.handle h = some nb) (hz : s.buf? nb = some z)
     (zt : z.traits = some t) (mt : Managed t) :
-    (((s.handle h).bind s.buf?).bind fun x => x.traits.bind fun t => if t.init ∧ t.size ≠ 0 then some t else none) = some t := by
+    (((s.handle h).bind s.buf?).bind fun x => x.traits.bind fun t =>
+      if (t.init ∨ t.fini.isSome) ∧ t.size ≠ 0 then some t else none) = some t := by
   have h4 := mt.2.2
   have : t.size ≠ 0 := by omega
   simp [hh, hz, zt, mt.1, this]
